@@ -392,3 +392,65 @@ Section Wt.
        split; [exact I1 | split; [constructor; [split; assumption | exact I2] | simpl; rewrite I3; reflexivity]]).
   Qed.
 End Wt.
+
+(* ---- the two reads of the config file ---- *)
+
+(* tie T: apply hashes the config file BEFORE it normalizes it *)
+Definition reads_order_ok : bool :=
+  match map snd apply_reads with
+  | a :: b :: _ => String.eqb a "hashFile" && String.eqb b "r.normalize"
+  | _ => false
+  end.
+
+Lemma reads_order : reads_order_ok = true.
+Proof. vm_compute. reflexivity. Qed.
+
+Section TwoReads.
+  Variable env : str -> option str.
+  Variable tolerate : bool.
+
+  Lemma ostr_eqb_true a b : option_eqb str_eqb a b = true -> a = b.
+  Proof.
+    destruct a, b; simpl; intro H; try discriminate; [|reflexivity].
+    apply str_eqb_eq in H. congruence.
+  Qed.
+
+  (* hash read first: an edit between the reads leaves (old hash, new output); the
+     next undisturbed pass on the new content reloads it *)
+  Lemma hash_then_normalize s old new dir f s1 r1 f2 s2 r2 :
+    old <> new -> NoDup (map fst dir) ->
+    apply2 true env tolerate s (Some old) (Some new) dir f false = (s1, r1) -> r_err r1 = false ->
+    apply true env tolerate s1 (Some new) dir f2 false = (s2, r2) -> r_err r2 = false ->
+    r_tried r2 = true /\ r_succeeded r2 = true /\ out_cfg s2 = expand env tolerate new.
+  Proof.
+    intros Hne Hnd H1 E1 H2 E2. unfold apply2 in H1.
+    destruct (expand env tolerate new) as [e|] eqn:Ee; [|inversion H1; subst; discriminate].
+    destruct (apply true env tolerate s (Some old) dir f false) as [s' r] eqn:Ea.
+    inversion H1; subst s1 r1. clear H1.
+    pose proof (apply_settles true env tolerate s (Some old) dir f s' r Ea E1 Hnd) as [_ Hs].
+    unfold same_as_recorded in Hs. apply andb_true_iff in Hs as [_ Hc]. apply ostr_eqb_true in Hc.
+    unfold cfg_hash in Hc.
+    destruct (apply_spec true env tolerate _ (Some new) dir f2 false s2 r2 H2 E2 Hnd)
+      as [Hcfg [_ [Ht [_ [_ [Hts _]]]]]].
+    assert (Htried : r_tried r2 = true).
+    { rewrite Ht. unfold same_as_recorded, cfg_hash. cbn [last_cfg last_dir force]. rewrite Hc.
+      assert (Hf : option_eqb str_eqb (Some old) (Some new) = false).
+      { simpl. apply str_eqb_neq. exact Hne. }
+      rewrite Hf, andb_false_r. cbn. apply orb_true_r. }
+    split; [exact Htried|]. split; [rewrite (Hts Htried); reflexivity|].
+    destruct (Hcfg eq_refl) as [c [Ec [Ho _]]]. inversion Ec; subst c. rewrite Ho, Ee. reflexivity.
+  Qed.
+End TwoReads.
+
+(* normalize read first (the order the source does NOT have): (old output, new
+   hash); the reload loads the old output, the next pass sees nothing to do *)
+Definition w_old : str := [111%N].   (* "o" *)
+Definition w_new : str := [110%N].   (* "n" *)
+
+Lemma normalize_then_hash_refuted :
+  let '(s1, r1) := apply2 true w_env true init (Some w_new) (Some w_old) [] 0 false in
+  let '(s2, r2) := apply true w_env true s1 (Some w_new) [] 0 false in
+  r_succeeded r1 = true /\ out_cfg s1 = Some w_old      (* reloaded with the old content *)
+  /\ r_err r2 = false /\ r_tried r2 = false              (* never reloaded again *)
+  /\ out_cfg s2 = Some w_new.                            (* although the output has changed *)
+Proof. vm_compute. repeat split; reflexivity. Qed.
